@@ -19,8 +19,9 @@ file_interface.load_transform + .transform, .project, the writers).
 C15.1: program order of the steps equals the documented order (all events of
 step k precede all events of step k+1; steps inside one loop body are ordered
 within the body). C15.2: each step is control-dependent on its own option
-(live condition folds to False when the option is off, not to False when on)
-and with every processing option off no mutating step is reachable. C15.3:
+(live condition folds to False when the option is off, not to False when on
+— alone and together with every other processing option) and with every
+processing option off no mutating step is reachable. C15.3:
 flag wiring — each callee parameter receives the args attribute of the same
 meaning; alignment uses the *associated* reference and the synchronised
 estimate. C15.4: the reference trajectory object is only ever passed, as the
